@@ -34,7 +34,7 @@ func runC15Root(c *Ctx) {
 		arg := e.Site.Common().Args[1]
 		construct := FuncName(e.Caller.Func) + "|path given to (*Config).PathConfigs"
 		// the value must (also) come from filepath.Rel whose base derives from (*Project).RootDir
-		relOK := false
+		relOK, targetBad := false, false
 		var raw []string
 		for _, o := range p.Origins(arg, FlowOpts{MaxDepth: 8}) {
 			switch o.Kind {
@@ -53,6 +53,9 @@ func runC15Root(c *Ctx) {
 					if rootDerived(p, call.Call.Args[0], 0) {
 						relOK = true
 					}
+					if !relTargetIsWholePath(call.Call.Args[1], 0) {
+						targetBad = true
+					}
 				}
 			case OParam:
 				raw = append(raw, FuncName(o.Fn)+" parameter "+o.Val.Name())
@@ -60,6 +63,10 @@ func runC15Root(c *Ctx) {
 		}
 		if !relOK {
 			c.bad(construct, e.Site.Pos(), "the path does not come from filepath.Rel(<project root>, ...): `paths` globs are matched against a path that depends on the working directory")
+			continue
+		}
+		if targetBad {
+			c.bad(construct, e.Site.Pos(), "what filepath.Rel makes relative to the project root is not the whole path of the file (made absolute at most): the `paths` globs are matched against something else than the file's path")
 			continue
 		}
 		// the raw (cwd-relative) path may only be passed when there is no project or Rel failed
